@@ -137,8 +137,12 @@ Definition parse_fields (fields : str) : option (list (str * avalue) * str * boo
       let d := strip (skipn e fields) in
       match d with
       | [] => Some (annotations_of groups, [], false)
-      | c :: t => if N.eqb c 58 then Some (annotations_of groups, t, false)
-                  else Some (annotations_of groups, d, Nat.ltb 0 e)
+      | c :: t =>
+          (* the ':' separates annotations from the description: without annotations on this field a
+             leading ':' belongs to the description *)
+          if Nat.ltb 0 e then
+            if N.eqb c 58 then Some (annotations_of groups, t, false) else Some (annotations_of groups, d, true)
+          else Some (annotations_of groups, d, false)
       end
   end.
 
